@@ -325,9 +325,11 @@ pub fn gen_icmp4(r: &mut Rng) -> Icmpv4Header {
         0 => r.u8(),
         _ => *r.pick(&[0u8, 3, 5, 8, 11, 12, 13, 14]),
     };
-    b[1] = match r.below(3) {
+    // most typed messages require code 0
+    b[1] = match r.below(4) {
         0 => r.u8(),
-        _ => r.below(17) as u8,
+        1 => r.below(17) as u8,
+        _ => 0,
     };
     match Icmpv4Header::from_slice(&b) {
         Ok((h, _)) => h,
@@ -350,9 +352,10 @@ pub fn gen_icmp6(r: &mut Rng) -> Icmpv6Header {
             1u8, 2, 3, 4, 128, 129, 130, 131, 132, 133, 134, 135, 136, 137, 143,
         ]),
     };
-    b[1] = match r.below(3) {
+    b[1] = match r.below(4) {
         0 => r.u8(),
-        _ => r.below(8) as u8,
+        1 => r.below(8) as u8,
+        _ => 0,
     };
     match Icmpv6Header::from_slice(&b) {
         Ok((h, _)) => h,
